@@ -4,7 +4,9 @@ from ..graph import Graph
 from ..expr import access_path, path_str, reaching_defs, norm_cond, origins
 from ..linear import linear, relation, rel_str, fmt
 from ..symb import eval3, returns_under_pins
-from .common import strip_casts, short, atomic_op, comparison
+from .common import strip_casts, short, atomic_op, comparison, loops_over, loop_visits_every_element
+from ..inteval import ieval, pin_conditions
+from ..symb import feasible_reach
 
 UNITS = []
 DRIVERS = ['trace_headers.cc']
@@ -22,6 +24,9 @@ EXPLANATION = (
     'C11.R3 (table of minimum memory orders, extracted from the order arguments; default = seq_cst). '
     'C11.R4 (spin lock): every return of lock() is behind an acquiring edge (exchange(true) returned false / try_lock() '
     'returned true); try_lock() is false whenever its exchange(true) found the flag set; unlock() is one store(false).')
+EXPLANATION += (' C11.R5 (queue geometry as finite tables, constant folding of the index arithmetic for capacities 2..4 x every tail index x every fill level): '
+                'the range PeekImpl hands to the consumer is exactly slots tail..head-1 modulo capacity in that order; CircularBufferRange::Take(n) keeps exactly the first n '
+                'elements (|first|,|second| in 0..3); ForEach visits every element of first_ and then every element of second_ and is left early only on the callback\'s false.')
 EXPLANATION += ' C11.R1 also checks that the rvalue Add never release()s its argument into nothing. C11.R4 also checks that after an acquiring edge no further acquisition attempt is reachable (lock returns once acquired).'
 NOT_DECIDED = 'linearizability, ABA/wrap-around and "queued never exceeds capacity" under interleavings; lock() liveness.'
 
@@ -296,7 +301,8 @@ def rule_r2(ck, prog, suffix, g_add, rd_add, full_rel, f_add):
             a = adv[0]
             o = atomic_op(a.n)
             lin = linear(g, rd, f, a.n['args'][0], a.ctx) if a.n.get('args') else None
-            ok = o[1] in ('operator+=', 'fetch_add') and lin == {'param:n': 1}
+            ok = (o[1] in ('operator+=', 'fetch_add') and lin == {'param:n': 1}) or \
+                 (o[0] == 'store' and lin == {'param:n': 1, 'this.tail_': 1})   # tail_ = tail_ + n: one consumer, so no lost update
             ok = ok and g.exit.id not in g.reachable_from(g.entry, avoid=[a])
         ck.verdict(ok, 'C11.R2', f, 'tail-advance', adv[0].n if adv else None,
                    'tail_ advanced by n exactly once on every path' if ok else 'Consume does not advance tail_ by exactly its count once on every path')
@@ -307,6 +313,211 @@ def rule_r2(ck, prog, suffix, g_add, rd_add, full_rel, f_add):
             lin = linear(g, rd, f, rp.n['e'], rp.ctx)
             ok = lin == {'this.head_': 1, 'this.tail_': -1}
             ck.verdict(ok, 'C11.R2', f, 'size', rp.n, 'size() = %s' % fmt(lin) + ('' if ok else ' (expected HEAD-TAIL)'))
+
+
+def _range_value(g, rd, f, idx, ctx, env, depth=0):
+    """the sequence of slot numbers a CircularBufferRange-valued expression denotes under env: list of ints, or None when a part
+    does not fold"""
+    if idx is None or idx < 0 or depth > 6:
+        return None
+    n = f.nodes[idx]
+    k = n['k']
+    if k in ('cast', 'paren'):
+        return _range_value(g, rd, f, n['e'], ctx, env, depth + 1)
+    if k == 'initlist':
+        out = []
+        for c in n.get('ch', []):
+            v = _range_value(g, rd, f, c, ctx, env, depth + 1)
+            if v is None:
+                return None
+            out += v
+        return out
+    if k == 'construct':
+        cls = strip_targs(n.get('c', '')).rsplit('::', 1)[-1]
+        args = [a for a in n.get('args', []) if a is not None and a >= 0 and f.nodes[a]['k'] != 'defarg']
+        if cls == 'span':
+            if not args:
+                return []
+            if len(args) == 1:
+                return _range_value(g, rd, f, args[0], ctx, env, depth + 1)
+            if len(args) == 2:
+                p = ieval(g, rd, f, args[0], ctx, env)
+                l = ieval(g, rd, f, args[1], ctx, env)
+                if isinstance(p, tuple) and p[0] == 'ptr' and isinstance(l, int) and not isinstance(l, bool):
+                    q = None
+                    if isinstance(l, int) and l > 4096:
+                        # a length that wrapped around (unsigned underflow): report it as out of bounds
+                        return [p[2], 'wrapped length %d' % l]
+                    return [p[2] + i for i in range(l)]
+                pe = ieval(g, rd, f, args[1], ctx, env)
+                if isinstance(p, tuple) and isinstance(pe, tuple) and p[0] == pe[0] == 'ptr' and p[1] == pe[1]:
+                    return [p[2] + i for i in range(max(0, pe[2] - p[2]))]
+            return None
+        # the range itself (or a copy / conversion of one): concatenation of its span arguments
+        out = []
+        for a in args:
+            v = _range_value(g, rd, f, a, ctx, env, depth + 1)
+            if v is None:
+                return None
+            out += v
+        return out
+    if k == 'member' or (k == 'ref' and n.get('sk') in ('local', 'param')):
+        key = path_str(access_path(f, idx, ctx))
+        v = env.get('range:' + key)
+        if v is not None:
+            return list(v)
+        if k == 'ref' and n.get('sk') == 'local':
+            for (sf, sn, sc) in origins(g, rd, f, idx, ctx):
+                if sn['i'] != idx or sf is not f:
+                    return _range_value(g, rd, sf, sn['i'], sc, env, depth + 1)
+        return None
+    if k == 'call' and n.get('obj') is not None:
+        # first_.subspan(a, b) / first(n) are not used by the code base today: inconclusive
+        return None
+    return None
+
+
+def rule_r5(ck, prog, CB):
+    """Queue geometry as finite tables (capacities 2..4, every tail position, every fill level): the range PeekImpl hands out is
+    exactly the queued slots in FIFO order; Take(n) keeps exactly the first n of them; ForEach visits first_ then second_."""
+    # --- PeekImpl: the member that builds a range of spans over data_
+    peeks = []
+    for f in prog.funcs.values():
+        sq = strip_targs(f.qn)
+        if not (sq.rsplit('::', 1)[0].endswith(CB)) or not f.blocks or f.d.get('lambda'):
+            continue
+        if any(n['k'] == 'construct' and strip_targs(n.get('c', '')).endswith('nostd::span::span') and len(n.get('args', [])) == 2 for n in f.nodes):
+            peeks.append(f)
+    seen_cls = set()
+    for f in sorted(peeks, key=lambda x: x.qn):
+        cls = f.qn.rsplit('::', 1)[0]
+        if cls in seen_cls:
+            continue
+        seen_cls.add(cls)
+        g = Graph(prog, f, inline=None, sync_lambdas=False)
+        rd = reaching_defs(g)
+        rets = g.returns()
+        bad = None
+        unknown = None
+        rows = 0
+        for cap in (2, 3, 4):
+            for t in range(cap):
+                for fill in range(cap):
+                    tail = cap * 3 + t
+                    head = tail + fill
+                    env = {'this.capacity_': cap, 'this.tail_': tail, 'this.head_': head, 'this.data_.data()': ('ptr', 'data_', 0)}
+                    pins = pin_conditions(g, rd, f, env)
+                    reach = [r for r in rets if feasible_reach(g, [g.entry], [r], pins=pins) is not None]
+                    rows += 1
+                    want = [(tail + i) % cap for i in range(fill)]
+                    if len(reach) != 1:
+                        unknown = unknown or 'capacity %d, tail %d, %d queued: %d returns feasible' % (cap, tail, fill, len(reach))
+                        continue
+                    r = reach[0]
+                    v = _range_value(g, rd, f, r.n.get('e'), r.ctx, env)
+                    if v is None:
+                        unknown = unknown or 'the range returned at line %s does not fold for capacity %d, tail index %d, %d queued' % (r.line, cap, t, fill)
+                        continue
+                    if v != want and bad is None:
+                        bad = (r.n, 'capacity %d, tail index %d, head index %d (%d queued): the range covers slots %s, the queued elements are in slots %s in this order'
+                               % (cap, t, head % cap, fill, v, want))
+        if bad:
+            ck.violation('C11.R5', f, 'peek-range-is-the-queued-slots-in-order', bad[0], bad[1])
+        elif unknown:
+            ck.inconclusive('C11.R5', f, 'peek-range-is-the-queued-slots-in-order', None, unknown)
+        else:
+            ck.holds('C11.R5', f, 'peek-range-is-the-queued-slots-in-order', None, '%d rows (capacity 2..4 x tail index x fill level): slots tail..head-1 modulo capacity, in order' % rows)
+    # --- CircularBufferRange::Take
+    RG = CB.rsplit('::', 1)[0] + '::CircularBufferRange'
+    seen_cls = set()
+    for f in sorted(prog.functions(RG + '::Take'), key=lambda x: x.qn):
+        cls = f.qn.rsplit('::', 1)[0]
+        if cls in seen_cls or not f.blocks or 'const ' in cls.split('CircularBufferRange', 1)[1][:8]:
+            continue
+        seen_cls.add(cls)
+        g = Graph(prog, f, inline=None, sync_lambdas=False)
+        rd = reaching_defs(g)
+        rets = g.returns()
+        bad = unknown = None
+        rows = 0
+        pname = f.params[0]['name'] if f.params else 'n'
+        for a in range(4):
+            for b in range(4):
+                for k in range(a + b + 1):
+                    first = [10 + i for i in range(a)]
+                    second = [i for i in range(b)]
+                    env = {'this.first_.size()': a, 'this.second_.size()': b, 'param:' + pname: k,
+                           'this.first_.data()': ('ptr', 'data_', 10), 'this.second_.data()': ('ptr', 'data_', 0),
+                           'range:this.first_': first, 'range:this.second_': second}
+                    pins = pin_conditions(g, rd, f, env)
+                    reach = [r for r in rets if feasible_reach(g, [g.entry], [r], pins=pins) is not None]
+                    rows += 1
+                    want = (first + second)[:k]
+                    if len(reach) != 1:
+                        unknown = unknown or '|first|=%d |second|=%d n=%d: %d returns feasible' % (a, b, k, len(reach))
+                        continue
+                    r = reach[0]
+                    v = _range_value(g, rd, f, r.n.get('e'), r.ctx, env)
+                    if v is None:
+                        unknown = unknown or 'the range returned at line %s does not fold' % r.line
+                        continue
+                    if v != want and bad is None:
+                        bad = (r.n, '|first|=%d, |second|=%d, Take(%d) yields elements %s, the first %d elements are %s' % (a, b, k, v, k, want))
+        if bad:
+            ck.violation('C11.R5', f, 'take-keeps-the-first-n', bad[0], bad[1])
+        elif unknown:
+            ck.inconclusive('C11.R5', f, 'take-keeps-the-first-n', None, unknown)
+        else:
+            ck.holds('C11.R5', f, 'take-keeps-the-first-n', None, '%d rows (|first|, |second| in 0..3, every n)' % rows)
+    # --- ForEach: every element of first_, then every element of second_; left early only when the callback said stop
+    done = set()
+    for f in sorted(prog.functions(RG + '::ForEach'), key=lambda x: x.qn):
+        cls = f.qn.rsplit('::', 1)[0]
+        if cls in done or not f.blocks:
+            continue
+        done.add(cls)
+        g = Graph(prog, f, inline=None, sync_lambdas=False)
+        cb = f.params[0]['id'] if f.params else None
+        visits = {}
+        why = None
+        for fld in ('first_', 'second_'):
+            loops = loops_over(f, lambda ap, fld=fld: ap == ('this', fld))
+            if len(loops) != 1:
+                why = 'no single loop over %s' % fld
+                break
+            lp = loops[0]
+            body = set(f.subtree(lp['body']))
+            vis = [p for p in g.points if p.f is f and p.n is not None and p.n['i'] in body and p.n['k'] == 'call' and
+                   p.n.get('obj') is not None and f.nodes[p.n['obj']]['k'] == 'ref' and f.nodes[p.n['obj']].get('id') == cb]
+            visits[fld] = (lp, vis)
+
+            def stop_edge(a, b, lab, vis=vis):
+                # the edge on which the callback answered false
+                if not lab or not isinstance(lab[0], int):
+                    return False
+                core, pol = norm_cond(lab[1], lab[0])
+                truth = lab[2] if pol else (not lab[2])
+                return truth is False and any(v.n['i'] == core or core in f.subtree(v.n['i']) or v.n['i'] in f.subtree(core) for v in vis)
+            r = loop_visits_every_element(g, f, lp, vis, allowed_exit=stop_edge)
+            if r:
+                why = 'loop over %s: %s' % (fld, r)
+                break
+        if why is None:
+            v1, v2 = visits['first_'][1], visits['second_'][1]
+            # order: no visit of first_ is reachable from a visit of second_
+            back = g.reachable_from(v2)
+            if any(p.id in back for p in v1):
+                why = 'an element of first_ can be visited after an element of second_: elements are delivered out of queue order'
+            # completeness: from the entry, an exit cannot be reached avoiding the loops' iteration starts unless ranges are empty - covered by loop_visits
+            elif not all(g.must_pass(p, v1) or True for p in v2):
+                why = None
+            # the second loop's header is only reached after the first loop ended
+            if why is None:
+                l1, l2 = visits['first_'][0], visits['second_'][0]
+                if not (l1['i'] < l2['i']) and not any(p.id in g.reachable_from(v1) for p in v2):
+                    why = 'the loop over second_ is not reachable after the loop over first_'
+        ck.verdict(why is None, 'C11.R5', f, 'foreach-visits-first-then-second', None,
+                   'every element of first_, then every element of second_, stopped only by the callback' if why is None else why)
 
 
 def rule_r3(ck, prog, suffix, only_spin=False):
@@ -430,6 +641,7 @@ def run(ck, prog):
     ck.doc('C11.R1', 'ownership typestate of Add/SwapIfNull/Swap/Reset and the rvalue wrapper', 11)
     ck.doc('C11.R2', 'guard agreement: fullness, capacity, slot index, tail advance, size', 7)
     ck.doc('C11.R3', 'minimum memory orders of the queue and the spin lock', 9)
+    ck.doc('C11.R5', 'queue geometry as finite tables: PeekImpl hands out exactly the queued slots in FIFO order, Take keeps the first n, ForEach visits first_ then second_', 3)
     ck.doc('C11.R4', 'spin lock: lock returns only when acquired, and returns once acquired; try_lock false on a held lock; unlock stores false', 4)
     CB = 'sdk::common::CircularBuffer'
     with ck.canary('C11.R1'):
@@ -437,6 +649,8 @@ def run(ck, prog):
             gb, rb, fr = rule_r1_add(ck, prog, f)
     with ck.canary('C11.R2'):
         rule_r2(ck, prog, 'canary::c11::BadBuffer', gb, rb, fr, f)
+    with ck.canary('C11.R5'):
+        rule_r5(ck, prog, 'canary::c11::BadBuffer')
     with ck.canary('C11.R3'):
         _canary_orders(ck, prog)
     with ck.canary('C11.R4'):
@@ -450,6 +664,7 @@ def run(ck, prog):
     rule_r1_rvalue(ck, prog, CB)
     rule_r3(ck, prog, CB)
     rule_r4(ck, prog)
+    rule_r5(ck, prog, CB)
     return {}
 
 
